@@ -106,6 +106,8 @@ def judge(case):
         return out
     if case["kind"] == "stream":
         judge_stream(case, out)
+    elif case["kind"] == "sockiter":
+        _judge_sockiter(case, out)
     elif case["kind"] == "iter":
         _judge_iter(case, out)
     else:
@@ -151,6 +153,113 @@ def _judge_iter(case, out):
             break
     out.obs = core.h64(repr((case.get("stream"), sorted(cfg.items()), events)))
     out.nontrivial = any(e != "item" and e != "stop" for e in events) or True
+
+
+def _judge_sockiter(case, out):
+    """
+    The iterator over a real socket subclass (so that the library's own SocketWrapper is in the
+    path), plain or chunked-encoded, the peer closing / timing out wherever the case says.
+    """
+    from pyrtcm import RTCMReader  # pylint: disable=import-outside-toplevel
+    from mc.doubles import NonTermination, SegSocket  # pylint: disable=import-outside-toplevel
+
+    cfg = case["cfg"]
+    lib = H.lib_exceptions()
+    wire = case["wire"]
+    sock = SegSocket(wire, case.get("segs", ()),
+                     {int(k): v for k, v in case.get("faults", {}).items()})
+    name = (f"{case.get('stream')} over a socket (encoding={case.get('encoding', 0)}, "
+            f"{len(wire)} wire bytes, segments {case.get('segs', [])[:6]}, faults {case.get('faults', {})})")
+    events = []
+    try:
+        rdr = RTCMReader(sock, validate=cfg["v"], quitonerror=cfg["q"], parsed=cfg["p"],
+                         errorhandler=(lambda e: None), encoding=case.get("encoding", 0))
+        for _ in range(len(wire) + 9):
+            try:
+                next(rdr)
+                events.append("item")
+            except StopIteration:
+                events.append("stop")
+                break
+            except lib as err:
+                events.append("lib:" + type(err).__name__)
+                if cfg["q"] in (0, 1):
+                    out.bad("iterator-raises-in-nonraise-mode",
+                            f"next() raised {type(err).__name__} under quitonerror={cfg['q']} on {name}")
+                    break
+        else:
+            out.bad("nontermination", f"iteration over {name} did not stop")
+    except NonTermination:
+        out.bad("nontermination", f"iteration over {name} keeps polling the socket (recv budget exceeded)")
+    except RecursionError:
+        out.bad("foreign-exception:next:RecursionError", f"RecursionError on {name}")
+    except Exception as err:  # pylint: disable=broad-except
+        out.bad(f"foreign-exception:next:{type(err).__name__}",
+                f"next() raised {type(err).__name__}: {err} on {name} (quitonerror={cfg['q']})")
+    finally:
+        sock.close()
+    out.obs = core.h64(repr((case.get("stream"), cfg["q"], case.get("encoding", 0), events)))
+    out.nontrivial = True
+
+
+def _chunked(data, sizes):
+    """RFC 9112 chunked coding of ``data`` with the given chunk sizes (cyclic), last-chunk included."""
+    out, pos, k = b"", 0, 0
+    while pos < len(data):
+        n = sizes[k % len(sizes)]
+        k += 1
+        part = data[pos:pos + n]
+        pos += len(part)
+        out += f"{len(part):x}".encode() + b"\r\n" + part + b"\r\n"
+    return out + b"0\r\n\r\n"
+
+
+def sock_cases(tier):
+    alpha = items.full_alphabet(tier)
+    cfgs = [{"q": q, "v": 1, "p": True, "h": True} for q in (0, 1, 2)]
+    out = []
+    seqs = []
+    for d in (1, 2):
+        for combo in itertools.product(alpha, repeat=d):
+            data = b"".join(i["data"] for i in combo)
+            if len(data) <= 200:
+                seqs.append(("+".join(i["name"] for i in combo), data))
+    for name, data in seqs:
+        for cfg in cfgs:
+            out.append({"kind": "sockiter", "stream": name, "wire": data, "cfg": cfg})
+            out.append({"kind": "sockiter", "stream": name, "wire": data, "cfg": cfg,
+                        "segs": [1] * len(data)})
+    # the peer closes / times out anywhere: every prefix of single items and of some mixes,
+    # plain and chunked (so that the stream may end inside a size line, a body or a terminator)
+    singles = [(i["name"], i["data"]) for i in alpha if len(i["data"]) <= 48]
+    mixes = [("F2+nmeaG+F19", items.concat(["F2", "nmeaG", "F19"])),
+             ("nmeaG+ubx0+F2", items.concat(["nmeaG", "ubx0", "F2"])),
+             ("dmgcrc+D3+nmeaP", items.concat(["dmgcrc", "D3", "nmeaP"]))]
+    for name, data in singles + mixes:
+        for cut in range(0, len(data) + 1):
+            for cfg in cfgs:
+                out.append({"kind": "sockiter", "stream": f"{name}[:{cut}]", "wire": data[:cut], "cfg": cfg})
+                if cut and cfg["q"] == 1:
+                    out.append({"kind": "sockiter", "stream": f"{name}[:{cut}]/1", "wire": data[:cut],
+                                "cfg": cfg, "segs": [1] * cut})
+        for sizes in ([len(data) or 1], [3], [1, 17]):
+            enc = _chunked(data, sizes)
+            for cut in range(0, len(enc) + 1):
+                for cfg in cfgs[:2] if sizes != [3] else cfgs:
+                    out.append({"kind": "sockiter", "stream": f"chunked{sizes}:{name}[:{cut}]",
+                                "wire": enc[:cut], "cfg": cfg, "encoding": 1})
+                if cut % 3 == 1:
+                    out.append({"kind": "sockiter", "stream": f"chunked{sizes}:{name}[:{cut}]/1",
+                                "wire": enc[:cut], "cfg": cfgs[1], "encoding": 1, "segs": [1] * cut})
+        # a timeout / OS error instead of the k-th receive (the wrapper reports end of data)
+        for k in range(0, 4):
+            for fault in ("timeout", "oserror"):
+                out.append({"kind": "sockiter", "stream": f"{name}@{fault}{k}", "wire": data, "cfg": cfgs[1],
+                            "segs": [5] * 40, "faults": {k: fault}})
+                out.append({"kind": "sockiter", "stream": f"chunked:{name}@{fault}{k}",
+                            "wire": _chunked(data, [7]), "cfg": cfgs[0], "segs": [5] * 60,
+                            "faults": {k: fault}, "encoding": 1})
+    return out
 
 
 # ---------------------------------------------------------------------------
@@ -318,7 +427,8 @@ def _explore_stream(name, source, cfgs, bound, tier, st):
 
 def run(tier, seed, t0):
     work = []
-    bc = byte_cases(tier) + corpus_cases(tier)
+    sc = sock_cases(tier)
+    bc = byte_cases(tier) + corpus_cases(tier) + sc
     for ch in core.chunks(bc, 1500):
         work.append(("bytes", ch, tier))
     seqs, cfgs = stream_cases(tier)
@@ -332,7 +442,8 @@ def run(tier, seed, t0):
     core.check_deterministic(judge, {"kind": "stream", "source": items.concat(["F2", "dmgcrc", "F19"]),
                                      "cfg": {"q": 2, "v": 1, "p": True, "h": True}, "choices": [0, 0, 1]})
     st = core.pmap(_work, work)
-    st.extra["byte_cases"] = len(bc)
+    st.extra["byte_cases"] = len(bc) - len(sc)
+    st.extra["socket_iteration_cases"] = len(sc)
     st.extra["streams"] = len(seqs)
     st.extra["reader_configurations"] = len(cfgs)
     return core.finish(
